@@ -4,7 +4,11 @@ go 1.13
 
 require (
 	com.tuntun.rangers/node v0.0.0
+	github.com/VictoriaMetrics/fastcache v1.5.7
 	github.com/anishathalye/porcupine v1.3.0
+	github.com/golang/protobuf v1.4.2
+	github.com/syndtr/goleveldb v1.0.0
+	golang.org/x/crypto v0.0.0-20210711020723-a769d52b0f97
 )
 
 replace com.tuntun.rangers/node => /repo
